@@ -202,6 +202,7 @@ type World struct {
 	Sched     *Schedule
 	Replay    bool
 	nextOp    int
+	simRng    *Rand
 	weights   map[string]int
 	groups    [][]string
 	gasMax    map[string]uint64
